@@ -258,3 +258,48 @@ func (c *Ctx) copyReaches(v, target ssa.Value) bool {
 	}
 	return walk(v, 0)
 }
+
+// resolveCell: the value a load of a local variable yields on path p — the last store into it along the path — also for
+// variables captured by closures, provided no closure writes them (all stores are in the variable's own function).
+func resolveCell(p *core.Path, v ssa.Value) ssa.Value {
+	for i := 0; i < 6; i++ {
+		v = p.Resolve(conversionsOnly(v))
+		ld, ok := v.(*ssa.UnOp)
+		if !ok || ld.Op != token.MUL {
+			return v
+		}
+		al, ok := ld.X.(*ssa.Alloc)
+		if !ok {
+			return v
+		}
+		for _, st := range allStoresTo(al) {
+			if st.Parent() != al.Parent() {
+				return v
+			}
+		}
+		var last ssa.Value
+		for _, pi := range p.Instrs() {
+			if pi.In == ssa.Instruction(ld) {
+				break
+			}
+			if st, ok := pi.In.(*ssa.Store); ok && st.Addr == ssa.Value(al) {
+				last = st.Val
+			}
+		}
+		if last == nil {
+			// the path may not contain the load yet (Assume is asked while the path is being built): last store so far
+			for _, b := range p.Blocks {
+				for _, in := range b.Instrs {
+					if st, ok := in.(*ssa.Store); ok && st.Addr == ssa.Value(al) {
+						last = st.Val
+					}
+				}
+			}
+		}
+		if last == nil {
+			return v
+		}
+		v = last
+	}
+	return v
+}
